@@ -136,6 +136,9 @@ func (s *Spec) Clone() *Spec {
 	b, _ := json.Marshal(s)
 	c := &Spec{}
 	json.Unmarshal(b, c)
+	if c.Sources == nil {
+		c.Sources = map[string]string{}
+	}
 	return c
 }
 
